@@ -40,10 +40,16 @@ type c18Gen struct {
 	// scheduled-backup singleton, the OpsMCP singleton), so that commands whose
 	// guards depend on each other's effects are adjacent in the log and batch
 	// partitions place them both inside one batch and across a batch boundary.
-	runLeft int
-	runKind string
-	runSlot uint32
-	runNode uint64
+	// lastEffective holds, per kind, the last command that changed durable state
+	// in the reference run; next() re-sends one of them verbatim (new index,
+	// identical payload) from time to time. lastResend names the kind of the
+	// command just returned by next() when it is such a re-send.
+	lastEffective map[command.Kind]command.Command
+	lastResend    command.Kind
+	runLeft       int
+	runKind       string
+	runSlot       uint32
+	runNode       uint64
 }
 
 func newC18Gen(rng *rand.Rand) *c18Gen {
@@ -941,8 +947,116 @@ func (g *c18Gen) genHealth(st state.ClusterState) command.Command {
 	return c
 }
 
+// noteResult tells the generator what the reference run made of cmd.
+func (g *c18Gen) noteResult(cmd command.Command, changedDurableState bool) {
+	if changedDurableState {
+		if g.lastEffective == nil {
+			g.lastEffective = map[command.Kind]command.Command{}
+		}
+		g.lastEffective[cmd.Kind] = cmd
+	}
+}
+
+// c18TwiddleShapes flips nil <-> empty for slices that may legitimately be
+// empty and whose JSON field has no omitempty (so the distinction survives
+// command.Encode/Decode), and drops / adds optional structs. These are the
+// shapes that differ between a freshly built in-memory value and one that went
+// through a codec.
+func (g *c18Gen) twiddleShapes(c *command.Command) {
+	flip := func(n int) bool { return n == 0 && g.p(50) }
+	if c.OpsMCP != nil && flip(len(c.OpsMCP.Credentials)) {
+		if c.OpsMCP.Credentials == nil {
+			c.OpsMCP.Credentials = []state.OpsMCPCredential{}
+		} else {
+			c.OpsMCP.Credentials = nil
+		}
+	}
+	if c.ScheduledBackup != nil {
+		sb := c.ScheduledBackup
+		if flip(len(sb.History)) {
+			if sb.History == nil {
+				sb.History = []state.BackupTaskRecord{}
+			} else {
+				sb.History = nil
+			}
+		}
+		if sb.Plan != nil && sb.Plan.RepositoryVerification == nil && g.p(30) {
+			v := &state.BackupRepositoryVerification{Status: state.BackupRepositoryVerificationUnverified}
+			if g.p(50) {
+				v = &state.BackupRepositoryVerification{Status: state.BackupRepositoryVerificationVerified, VerifiedAtUnixMillis: 150}
+			}
+			sb.Plan.RepositoryVerification = v
+		}
+		if sb.Plan != nil && sb.Plan.Store.CredentialCiphertext == nil && g.p(20) {
+			sb.Plan.Store.CredentialCiphertext = []byte{}
+		}
+	}
+	if c.ControllerVoterPromotion != nil && c.ControllerVoterPromotion.ExpectedPreviousVoters == nil && g.p(10) {
+		c.ControllerVoterPromotion.ExpectedPreviousVoters = []uint64{} // non-nil empty: a fence against "no voters"
+	}
+	if c.Task != nil {
+		if flip(len(c.Task.ParticipantProgress)) && c.Task.ParticipantProgress == nil {
+			c.Task.ParticipantProgress = []state.TaskParticipantProgress{}
+		}
+		if flip(len(c.Task.ObservedVoters)) && c.Task.ObservedVoters == nil {
+			c.Task.ObservedVoters = []uint64{}
+		}
+		if flip(len(c.Task.ObservedLearners)) && c.Task.ObservedLearners == nil {
+			c.Task.ObservedLearners = []uint64{}
+		}
+	}
+	if c.SlotReplicaMovePhase != nil && flip(len(c.SlotReplicaMovePhase.ObservedLearners)) && c.SlotReplicaMovePhase.ObservedLearners == nil {
+		c.SlotReplicaMovePhase.ObservedLearners = []uint64{}
+	}
+	if c.HashSlots != nil && flip(len(c.HashSlots.Ranges)) && c.HashSlots.Ranges == nil {
+		c.HashSlots.Ranges = []state.HashSlotRange{}
+	}
+	if c.Kind == command.KindUpdateControllerVoters && flip(len(c.Controllers)) && c.Controllers == nil {
+		c.Controllers = []state.ControllerVoter{}
+	}
+	if c.Node != nil && flip(len(c.Node.Roles)) && c.Node.Roles == nil {
+		c.Node.Roles = []state.NodeRole{}
+	}
+	if c.Assignment != nil && flip(len(c.Assignment.DesiredPeers)) && c.Assignment.DesiredPeers == nil {
+		c.Assignment.DesiredPeers = []uint64{}
+	}
+	if c.Init != nil && g.p(10) {
+		init := *c.Init
+		if init.Controllers == nil {
+			init.Controllers = []state.ControllerVoter{}
+		}
+		if init.Nodes == nil {
+			init.Nodes = []state.Node{}
+		}
+		c.Init = &init
+	}
+}
+
 // next produces the next command given A's current published state.
 func (g *c18Gen) next(st state.ClusterState) command.Command {
+	g.lastResend = ""
+	if st.Revision != 0 && len(g.lastEffective) > 0 && g.p(8) {
+		// idempotent re-send: the last effective command of one kind, verbatim
+		kinds := make([]string, 0, len(g.lastEffective))
+		for k := range g.lastEffective {
+			kinds = append(kinds, string(k))
+		}
+		sort.Strings(kinds)
+		k := command.Kind(kinds[g.rng.IntN(len(kinds))])
+		c := g.lastEffective[k]
+		if g.p(50) {
+			c.ExpectedRevision = nil
+		}
+		g.lastResend = k
+		g.flavours["idempotent_resend"]++
+		return c
+	}
+	c := g.nextFresh(st)
+	g.twiddleShapes(&c)
+	return c
+}
+
+func (g *c18Gen) nextFresh(st state.ClusterState) command.Command {
 	if len(g.pool) > 0 && g.p(14) {
 		g.flavours["replayed_old_command"]++
 		return g.pool[g.rng.IntN(len(g.pool))]
